@@ -294,7 +294,7 @@ def join_minimal(parts):
 
 def layouts(r, comps_text):
     ws = lambda: "".join(r.choice([" ", "  ", "\t", "\n", " \n  "]) for _ in range(r.randint(1, 3)))
-    cm = lambda: r.choice(["~ note ~", "~ a comment with words: and colon ~", "~~", "~ #a == 1 yes() ~", "~ multi\nline ~"])
+    cm = lambda: r.choice(["~ note ~", "~ a comment with words: and colon ~", "~~", "~ #a == 1 yes() ~", "~ multi\nline ~", "~ see ticket [1234] ~", "~ [todo] check ~", "~ was: push(\"s\", @v[0]) ~"])
     outs = []
     outs.append(("single-space", "[" + " ".join(comps_text) + "]"))
     outs.append(("minimal", "[" + join_minimal(comps_text) + "]"))
